@@ -99,11 +99,18 @@ def generate(rng, tier):
             callname = d.split('::')[1]
             cmd = callname if rng.random() < 0.6 else callname.rsplit(':', 1)[0]
         if rng.random() < 0.35:
-            style = rng.choice(['pos', 'pos', 'opt'])
+            style = rng.choice(['pos', 'pos', 'opt', 'optmod', 'optcmd', 'long'])
             if style == 'pos':
                 argv = ['PATH:' + target, cmd, '--verbose=%d' % verbose]
-            else:
+            elif style == 'opt':
                 argv = ['-m', 'PATH:' + target, '-c', cmd, '--verbose=%d' % verbose]
+            elif style == 'optmod':
+                # the module by option, the command positional (the form the docs advertise)
+                argv = ['-m', 'PATH:' + target, cmd, '--verbose=%d' % verbose]
+            elif style == 'optcmd':
+                argv = ['PATH:' + target, '-c', cmd, '--verbose=%d' % verbose]
+            else:
+                argv = ['--modname', 'PATH:' + target, '--command', cmd, '--verbose=%d' % verbose]
             if rng.random() < 0.2:
                 argv.append('--time')
             ops.append({'op': 'cli', 'argv': argv})
@@ -149,6 +156,8 @@ def _cmd_of(op):
     cmd = 'all'
     if '-c' in argv:
         cmd = argv[argv.index('-c') + 1]
+    elif '--command' in argv:
+        cmd = argv[argv.index('--command') + 1]
     else:
         rest = [a for a in argv if not a.startswith('PATH:') and not a.startswith('-')]
         if rest:
